@@ -782,6 +782,36 @@ Section Signing.
     rewrite L. apply count_htlc_entries.
   Qed.
 
+  (** The raw HTLC entry point: a signature is returned only when the BIP143 digest of the
+      supplied transaction is the digest of the second-stage transaction rebuilt from the
+      channel's own parameters, and it is the signature of that rebuilt transaction's digest —
+      for every [accept_htlc], i.e. whatever the policy filter does to the filterable checks. *)
+  Variable accept_htlc : N -> bool -> N -> bool.
+  Theorem htlc_phase1_recomposed t redeem amount sig :
+    sign_htlc_phase1 sha s k SK SIG sign htlc_key accept_htlc t redeem amount = Ok sig ->
+    exists i0 ins o0 outs feerate offered re,
+      t_ins t = i0 :: ins /\ t_outs t = o0 :: outs
+      /\ htlc_side s redeem = Some offered
+      /\ htlc_tx sha s k (i_txid i0) feerate (i_vout i0) offered
+                 (mkHtlc amount [] (if offered then t_lock t else 0)) = Some re
+      /\ sighash sha t 0 redeem amount (htlc_sighash_type_p1 s)
+         = sighash sha re 0 redeem amount (htlc_sighash_type_p1 s)
+      /\ sig = sign htlc_key (sighash sha re 0 redeem amount (htlc_sighash_type_p1 s)).
+  Proof.
+    unfold sign_htlc_phase1, decode_htlc_tx. intros H.
+    destruct (t_ins t) as [|i0 ins]; [discriminate|]. destruct (t_outs t) as [|o0 outs]; [discriminate|].
+    destruct (htlc_side s redeem) as [offered|]; [|discriminate].
+    destruct (amount <? o_value o0); [discriminate|].
+    match type of H with context [htlc_tx ?a ?b ?c ?d ?e ?f ?g ?h] =>
+      destruct (htlc_tx a b c d e f g h) as [re|] eqn:Er; [|discriminate] end.
+    match type of H with context [bytes_eqb ?x ?y] => destruct (bytes_eqb x y) eqn:Ed; [|discriminate] end.
+    apply bytes_eqb_true in Ed.
+    match type of H with context [accept_htlc ?a ?b ?c] => destruct (accept_htlc a b c); [|discriminate] end.
+    inversion H; subst sig.
+    eexists i0, ins, o0, outs, _, offered, re. repeat split; try reflexivity; try exact Er.
+    symmetry. exact Ed.
+  Qed.
+
   (** On every content the semantic entry point signs, the raw entry point accepts the
       canonical transaction with the canonical witness scripts and returns the same signature. *)
   Hypothesis sha_len : forall x, length (sha x) = 32%nat.
